@@ -17,12 +17,24 @@ EXPLANATION = (
     "(e) set_current_size truncates / zero-extends before publishing the new size, clamps download_size, and declares the "
     "download done only under downloaded >= download_size; (f) the first entry of the overwrite / milestone heap is read only "
     "when the heap is known non-empty and each turn of the milestone loop pops the entry it released. "
+    "Decided on GeneralSFTPFile (the handle in front of the consumer): (g) close() takes the commit decision synchronously: it returns "
+    "without queueing the commit on self.async_ only when the handle was already closed, was not opened with a flag set that includes "
+    "FXF_WRITE, was abandoned, or self.has_changed (sampled in close() itself) is false; therefore every request that performs or "
+    "queues self.consumer.overwrite sets has_changed = True in its own body before it returns (not in the queued callback), is refused "
+    "on handles for which close() skips the commit, its write callback is really queued (not defined and dropped / errback only), and "
+    "has_changed is never re-assigned to anything but True outside __init__; (h) the commit reads the consumer's temp file (get_file) "
+    "only inside callbacks of self.consumer.when_done(), chains such an upload on every way through, and returns that Deferred (so that "
+    "_do_close closes the consumer only afterwards); when_done() returns a new Deferred fired only from a callback of self.done, "
+    "self.done is created unfired and fired only by download_done(). "
     "Undecided: byte-level results of arbitrary histories, heap ordering (heapq), interleavings with the reactor; liveness "
     "(a milestone that is never released, an overwrite region that is not merged / a milestone not extended over it, a download "
     "that is not declared done after a truncation only delay reads); the `size < downloaded` truncate clause of set_current_size "
     "(value-level: no reachable state was found in which it alone matters); whether read() at offset == current_size raises "
-    "EOFError or returns b''; behaviour of overwrite()/read() on a closed consumer.")
-TECHNIQUE = "static analysis: CFG x monitor path rules with flow-sensitive normal forms (monotone-update, must-precede, pairing)"
+    "EOFError or returns b''; behaviour of overwrite()/read() on a closed consumer; GeneralSFTPFile.setAttrs(size) queues "
+    "consumer.set_current_size without marking the handle changed (a size change alone is not committed at close - behaviour of the "
+    "unchanged tree, reported separately, not enforced by (g)); which uploader the commit picks (mutable / immutable) and the result "
+    "of a failed download; requests arriving after close().")
+TECHNIQUE = "static analysis: CFG x monitor path rules with flow-sensitive normal forms (monotone-update, must-precede, pairing), Deferred-chain registration model"
 
 CLS = "frontends.sftpd:OverwriteableFileConsumer"
 
@@ -85,6 +97,195 @@ def _heap_top_reads(n, heap):
 def _f_call(n, name=None):
     """Calls on the temp file (self.f.<name>) at node n."""
     return [c for c in node_calls(n) if (call_name(c) or "").startswith("self.f.") and (name is None or call_name(c) == "self.f." + name)]
+
+
+# ---------------------------------------------------------------- GeneralSFTPFile (file handle in front of the consumer)
+GCLS = "frontends.sftpd:GeneralSFTPFile"
+FLAG = "self.has_changed"
+# calls on the consumer that change the file's contents; only those of them that the unchanged tree accounts for in
+# has_changed are listed (see EXPLANATION for set_current_size)
+QUEUED_MUTATORS = ("self.consumer.overwrite", "self.consumer.set_current_size")
+_REG_KINDS = {"addCallback": "cb", "addBoth": "both", "addCallbacks": "pair"}
+
+
+def _all_nested(fn):
+    out = {}
+    for f in fn.nested.values():
+        out[f.name] = f
+        for k, v in _all_nested(f).items():
+            out.setdefault(k, v)
+    return out
+
+
+def _tree_calls(node):
+    return [x for x in ast.walk(node) if isinstance(x, ast.Call)]
+
+
+def _reached_callables(fn, cls, target, depth=3):
+    """ASTs (Lambda / FunctionDef) of the callables that a registration target may run: the lambda itself, the nested
+    function of `fn` it names, a method `self.m` of the class, and the nested functions / methods those call by name."""
+    nested = _all_nested(fn)
+    out, seen = [], set()
+
+    def add(t, d):
+        body = None
+        if isinstance(t, ast.Lambda):
+            body = t
+        elif isinstance(t, ast.Name) and t.id in nested:
+            body = nested[t.id].node
+        elif isinstance(t, ast.Attribute) and cls is not None and (attr_path(t) or "").startswith("self.") \
+                and attr_path(t).count(".") == 1 and t.attr in cls.methods:
+            body = cls.methods[t.attr].node
+        if body is None or id(body) in seen:
+            return
+        seen.add(id(body))
+        out.append(body)
+        if d > 0:
+            for c in _tree_calls(body):
+                add(c.func, d - 1)
+    add(target, depth)
+    return out
+
+
+def _cfg_node_of(cfg, call):
+    for n in cfg.nodes:
+        if n.kind in ("entry", "exit", "raise"):
+            continue
+        for e in node_exprs(n):
+            if any(x is call for x in ast.walk(e)):
+                return n
+    return None
+
+
+def _truthy_const(v):
+    return isinstance(v, ast.Constant) and bool(v.value) and not isinstance(v.value, (str, bytes))
+
+
+def _flag_mask(s):
+    """`self.flags & (A | B | ..)` (normal-form string) -> frozenset of the flag names, else None."""
+    try:
+        e = parse_expr(s)
+    except Exception:
+        return None
+    if not (isinstance(e, ast.BinOp) and isinstance(e.op, ast.BitAnd)):
+        return None
+    sides = [e.left, e.right]
+    fl = [x for x in sides if attr_path(x) == "self.flags"]
+    if len(fl) != 1:
+        return None
+    other = [x for x in sides if x is not fl[0]][0]
+    names = set()
+
+    def collect(x):
+        if isinstance(x, ast.BinOp) and isinstance(x.op, ast.BitOr):
+            return collect(x.left) and collect(x.right)
+        if isinstance(x, ast.Name):
+            names.add(x.id)
+            return True
+        return False
+    return frozenset(names) if collect(other) and names else None
+
+
+def _strip_chain(v):
+    while isinstance(v, ast.Call) and isinstance(v.func, ast.Attribute) and v.func.attr in ("addCallback", "addErrback", "addBoth", "addCallbacks"):
+        v = v.func.value
+    return v
+
+
+def _fact_names(f):
+    """Names used by an edge fact if it is built only from plain names, constants and operators (no attribute, call or
+    subscript: nothing whose value can change between the request and the queued callback), else None."""
+    names = set()
+    for side in (f[1], f[2]):
+        if side is None:
+            continue
+        try:
+            e = parse_expr(side)
+        except Exception:
+            return None
+        for x in ast.walk(e):
+            if isinstance(x, ast.Name):
+                names.add(x.id)
+            elif not isinstance(x, (ast.Constant, ast.BinOp, ast.UnaryOp, ast.BoolOp, ast.Compare, ast.operator, ast.unaryop,
+                                    ast.boolop, ast.cmpop, ast.expr_context, ast.Tuple)):
+                return None
+    return names - {"None", "True", "False"}
+
+
+def _request_frozen_names(m):
+    """Locals / parameters of request `m` that a queued callback sees exactly as the request left them: bound in m's own body
+    (or a parameter), never bound in any nested function and never declared nonlocal / global."""
+    mg = m.cfg()
+    own = set(m.params) | {x for n in mg.nodes if n.kind not in ("entry", "exit", "raise") for x in node_stores(n) if "." not in x and "[" not in x}
+    spoiled = set()
+    for f in _all_nested(m).values():
+        own.discard(f.name)
+        a = f.node.args
+        for p_ in list(a.posonlyargs) + list(a.args) + list(a.kwonlyargs) + [x for x in (a.vararg, a.kwarg) if x is not None]:
+            spoiled.add(p_.arg)
+        for x in ast.walk(f.node):
+            if x is f.node:
+                continue
+            if isinstance(x, ast.Name) and isinstance(x.ctx, (ast.Store, ast.Del)):
+                spoiled.add(x.id)
+            elif isinstance(x, (ast.FunctionDef, ast.AsyncFunctionDef, ast.ClassDef)):
+                spoiled.add(x.name)
+            elif isinstance(x, ast.arg):
+                spoiled.add(x.arg)
+            elif isinstance(x, (ast.Import, ast.ImportFrom)):
+                spoiled.update((al.asname or al.name).split(".")[0] for al in x.names)
+            elif isinstance(x, ast.ExceptHandler) and x.name:
+                spoiled.add(x.name)
+    for x in ast.walk(m.node):
+        if isinstance(x, (ast.Nonlocal, ast.Global)):
+            spoiled.update(x.names)
+    return own - spoiled
+
+
+def _callback_unreachable_facts(m, reg, mutators):
+    """Facts over frozen request locals under which the callback queued by registration `reg` cannot reach any of its
+    mutator calls: for each mutator call (it must sit in the own body of the directly registered nested function) the
+    negations of the edge facts that guard every path to it; intersection over the calls.  Empty set = no such fact."""
+    nested = _all_nested(m)
+    t = reg.target
+    if not (isinstance(t, ast.Name) and t.id in nested):
+        return set()
+    f = nested[t.id]
+    frozen = _request_frozen_names(m)
+    calls = [c for b in _reached_callables(m, None, t) for c in _tree_calls(b) if call_name(c) in mutators]
+    own = list(func_own_nodes(f))
+    fg = f.cfg()
+    fn_ = FlowNorm(f, keep=frozen)
+    result = None
+    seen = set()
+    for c in calls:
+        if id(c) in seen:
+            continue
+        seen.add(id(c))
+        if not any(x is c for x in own):
+            return set()            # a mutator call in a helper / lambda / deeper function: not analysed, no excuse
+        nc = _cfg_node_of(fg, c)
+        if nc is None:
+            return set()
+        facts = set()
+        for tn in fg.nodes:
+            if tn.kind != "test":
+                continue
+            labs = [lab for (_d, lab) in fg.successors(tn) if isinstance(lab, tuple)]
+            for lab in labs:
+                others = [l2 for l2 in labs if l2[0] != lab[0]]
+                if not others:
+                    continue
+                neg = fn_.edge_fact(tn, others[0])
+                if not neg:
+                    continue
+                nm = _fact_names(neg)
+                if not nm or not nm <= frozen:
+                    continue
+                if not find_path_avoiding(fg, lambda x, _n=nc: x is _n, gate_edge=lambda a, l, _t=tn, _k=lab[0]: a is _t and isinstance(l, tuple) and l[0] == _k):
+                    facts.add(tuple(neg))
+        result = facts if result is None else (result & facts)
+    return result or set()
 
 
 def run(ctx: Context):
@@ -659,3 +860,298 @@ def run(ctx: Context):
                 if (p.id, False) in visited:
                     r.violation(U, U.loc(mn.ast), "the milestone loop can come back to the same first entry of self.milestones without "
                                 "popping it: the same waiter is released again and again", witness(g, parent, (p.id, False)))
+
+    # -- (g) GeneralSFTPFile: the synchronous commit decision sees every accepted write ------
+    with ctx.rule("C39.8", "R1/E7", "GeneralSFTPFile: close() skips the commit only for a handle that was already closed / not opened "
+                  "for writing / abandoned / unchanged; has_changed is sampled synchronously by close(), so every request that "
+                  "performs or queues a consumer overwrite marks the handle changed before it returns, it is accepted only on "
+                  "handles close() commits, and has_changed is never reset", expected=6) as r:
+        G = idx.cls(GCLS)
+        CLO = idx.func(GCLS + ".close")
+        cg = CLO.cfg()
+        cnm = FlowNorm(CLO)
+        commits = [f for f in CLO.nested.values() if any(call_tail(c) == "get_file" for c in _tree_calls(f.node))]
+        if not commits:
+            raise AnchorVanished("GeneralSFTPFile.close(): the callback that hands the consumer's temp file (get_file) to the "
+                                 "uploader was not found")
+        regs_all = [x for x in registrations(CLO) if x.kind in ("cb", "both", "pair")
+                    and any(b is f.node for b in _reached_callables(CLO, G, x.target) for f in commits)]
+        r.require(bool(regs_all), CLO, CLO.loc(), "close() never queues the commit callback (%s): nothing is ever uploaded"
+                  % ", ".join(f.name for f in commits))
+        regs = [x for x in regs_all if x.recv == "self.async_"]
+        if regs_all and not regs:
+            raise AnchorVanished("GeneralSFTPFile.close(): the commit is not queued on self.async_ (behind the queued writes)")
+        commit_nodes = [n for n in (_cfg_node_of(cg, x.call) for x in regs) if n is not None]
+        for n in commit_nodes:
+            r.site(CLO, n.ast, "commit queued")
+
+        def _is_flag_load(x):
+            return isinstance(x, ast.Attribute) and isinstance(x.ctx, ast.Load) and attr_path(x) == FLAG
+        own_loads = [x for x in func_own_nodes(CLO) if _is_flag_load(x)]
+        late_loads = [x for f in _all_nested(CLO).values() for x in ast.walk(f.node) if _is_flag_load(x)]
+        if late_loads:
+            raise AnchorVanished("GeneralSFTPFile.close(): has_changed is read inside a queued callback; the rule decides the "
+                                 "design in which close() samples it synchronously")
+        for x in own_loads:
+            r.site(CLO, x, "has_changed sampled at the close call")
+
+        masks = set()
+
+        def excuse(n, lab, closed_stored):
+            f = cnm.edge_fact(n, lab)
+            if not f:
+                return False
+            if f[0] == "truth" and f[1] == "self.closed" and not closed_stored:
+                return True         # closed by an earlier close(): that call took the decision
+            if f[0] == "truth" and f[1] == "self.abandoned":
+                return True
+            if f[0] == "false" and f[1] == FLAG:
+                return True
+            if f[0] == "false":
+                m = _flag_mask(f[1])
+                if m and "FXF_WRITE" in m:
+                    masks.add(m)    # not opened for writing: valid as long as writes are refused on such handles (below)
+                    return True
+            return False
+
+        def tr(n, lab, nxt, st):
+            if lab == "exc":
+                return None
+            if n.kind in ("entry", "exit", "raise"):
+                return st
+            stored, ok = st
+            if not ok and (excuse(n, lab, stored) or any(n is c for c in commit_nodes)):
+                ok = True
+            if "self.closed" in node_stores(n):
+                stored = True
+            return (stored, ok)
+        visited, parent = explore(cg, (False, False), tr)
+        r.count(len(visited))
+        for (nid, st) in sorted(visited):
+            if cg.nodes[nid].kind == "exit" and not st[1]:
+                w = witness(cg, parent, (nid, st))
+                r.violation(CLO, CLO.loc(), "close() can return without queueing the commit although the handle was open, opened for "
+                            "writing, not abandoned and has_changed was set: accepted writes are reported as closed but never "
+                            "uploaded (path: %s)" % w.brief(), w)
+                break
+
+        # every request that performs / queues a contents-changing call on the consumer
+        n_points = 0
+        for m in G.methods.values():
+            mg = m.cfg()
+            points = []
+            for n in mg.nodes:
+                if n.kind in ("entry", "exit", "raise"):
+                    continue
+                if any(call_name(c) in QUEUED_MUTATORS for c in node_calls(n)):
+                    points.append((n, "calls", None))
+            for x in registrations(m):
+                if x.kind not in ("cb", "both", "pair"):
+                    continue
+                if any(call_name(c) in QUEUED_MUTATORS for b in _reached_callables(m, G, x.target) for c in _tree_calls(b)):
+                    n = _cfg_node_of(mg, x.call)
+                    if n is not None and not any(n is p for (p, _h, _x) in points):
+                        points.append((n, "queues", x))
+            # a callback that would overwrite but is never queued / called: the write is accepted and silently dropped
+            live = []
+            for x in registrations(m):
+                if x.kind in ("cb", "both", "pair"):        # an errback-only registration does not run on the normal path
+                    live.extend(_reached_callables(m, G, x.target))
+            for c in (c for n in mg.nodes if n.kind not in ("entry", "exit", "raise") for c in node_calls(n, into_lambda=True)):
+                live.extend(_reached_callables(m, G, c.func))
+                if isinstance(c.func, ast.Attribute) and c.func.attr in ("addCallback", "addErrback", "addBoth", "addCallbacks"):
+                    continue
+                for a in list(c.args) + [k.value for k in c.keywords]:
+                    live.extend(_reached_callables(m, G, a))
+            for f in _all_nested(m).values():
+                if any(call_name(c) in QUEUED_MUTATORS for c in _tree_calls(f.node)) \
+                        and not any(any(y is f.node for y in ast.walk(b)) for b in live):
+                    n_points += 1
+                    r.violation(m, m.loc(f.node), "%s(): the callback %s that overwrites the consumer is defined but never queued or "
+                                "called: the request is answered with success and the write is dropped" % (m.name, f.name))
+            if not points:
+                continue
+            mnm = FlowNorm(m)
+            for (p, how, reg) in points:
+                n_points += 1
+                r.site(m, p.ast, "%s consumer overwrite" % how)
+                if own_loads:
+                    # a path of the request on which the queued callback cannot reach its mutator needs no mark: it passed an
+                    # edge fact over locals of the request (not re-bound later, the callback sees the same binding) whose
+                    # negation guards every path to the mutator inside the callback
+                    idle = _callback_unreachable_facts(m, reg, QUEUED_MUTATORS) if reg is not None else set()
+                    idle_names = set()
+                    for f_ in idle:
+                        idle_names |= _fact_names(f_) or set()
+                    knm = FlowNorm(m, keep=idle_names) if idle else None
+
+                    def tr2(n, lab, nxt, st, _p=p, _idle=idle, _knm=knm):
+                        if lab == "exc":
+                            return None
+                        passed, marked, excused = st
+                        if n is _p:
+                            passed = True
+                        if FLAG in node_stores(n):
+                            marked = _truthy_const(assign_value(n, FLAG))
+                        if _idle:
+                            # facts that hold now and whose names are not re-bound from here on
+                            excused = frozenset(f for f in excused if not ((_fact_names(f) or set()) & node_stores(n)))
+                            f = _knm.edge_fact(n, lab)
+                            if f and tuple(f) in _idle:
+                                excused = excused | {tuple(f)}
+                        return (passed, marked, excused)
+                    vis2, par2 = explore(mg, (False, False, frozenset()), tr2)
+                    r.count(len(vis2))
+                    for (nid, st) in sorted(vis2, key=lambda z: (z[0], z[1][0], z[1][1], sorted(map(repr, z[1][2])))):
+                        if mg.nodes[nid].kind == "exit" and st[0] and not st[1] and not st[2]:
+                            w = witness(mg, par2, (nid, st))
+                            r.violation(m, m.loc(p.ast), "%s() %s a consumer overwrite but can return without having set "
+                                        "has_changed = True itself: close() samples has_changed at the close call, so a close() "
+                                        "that arrives before the queued write has run skips the commit and the write is lost "
+                                        "(path: %s)" % (m.name, how, w.brief()), w)
+                            break
+                for Mc in sorted(masks, key=sorted):
+                    def writable(t, lab, _Mc=Mc):
+                        f = mnm.edge_fact(t, lab)
+                        if not f or f[0] != "truth":
+                            return False
+                        mm = _flag_mask(f[1])
+                        return bool(mm) and mm <= _Mc
+                    for (t, w) in find_path_avoiding(mg, lambda x, _p=p: x is _p, gate_edge=writable, skip_exc_edges=True):
+                        r.violation(m, m.loc(p.ast), "%s() %s a consumer overwrite on a handle for which close() skips the commit "
+                                    "(close() does not commit when none of %s is set, this write is not refused then)"
+                                    % (m.name, how, "|".join(sorted(Mc))), w)
+        if not n_points:
+            raise AnchorVanished("GeneralSFTPFile: no request performs or queues %s" % "/".join(QUEUED_MUTATORS))
+
+        # has_changed only ever goes from false to true after __init__
+        prefix = CLO.qual[:-len("close")]
+        for m in G.methods.values():
+            if m.name == "__init__":
+                continue
+            for st in ast.walk(m.node):
+                tg, val = [], None
+                if isinstance(st, ast.Assign):
+                    tg, val = list(st.targets), st.value
+                elif isinstance(st, ast.AnnAssign):
+                    tg, val = [st.target], st.value
+                elif isinstance(st, (ast.AugAssign, ast.Delete)):
+                    tg = [st.target] if isinstance(st, ast.AugAssign) else list(st.targets)
+                flat = []
+                for t in tg:
+                    flat.extend(t.elts if isinstance(t, (ast.Tuple, ast.List)) else [t])
+                    if isinstance(t, (ast.Tuple, ast.List)):
+                        val = None
+                if any(attr_path(t) == FLAG for t in flat):
+                    r.site(m, st, "has_changed store")
+                    r.require(_truthy_const(val), m, m.loc(st), "has_changed is re-assigned to %s in %s(): a write accepted before "
+                              "this statement runs is forgotten by the commit decision of close()"
+                              % (src(m, val) if val is not None else "?", m.name))
+        for (fn, node) in get_callgraph(idx).attr_stores("has_changed"):
+            if fn.qual.startswith(prefix):
+                continue
+            par = [st for st in ast.walk(fn.node) if isinstance(st, ast.Assign) and any(t is node for t in st.targets)]
+            r.require(bool(par) and _truthy_const(par[0].value), fn, fn.loc(node),
+                      "has_changed of a file handle is re-assigned outside GeneralSFTPFile")
+
+    # -- (h) the commit hands the temp file to the uploader only after the download is done -------
+    with ctx.rule("C39.9", "E7", "GeneralSFTPFile.close()._commit: the consumer's temp file is read (get_file) only in callbacks of "
+                  "consumer.when_done() and the commit returns that Deferred; when_done() fires only from a callback of self.done, "
+                  "which only download_done() fires", expected=7) as r:
+        G = idx.cls(GCLS)
+        CLO = idx.func(GCLS + ".close")
+        commits = [f for f in CLO.nested.values() if any(call_tail(c) == "get_file" for c in _tree_calls(f.node))]
+        if not commits:
+            raise AnchorVanished("GeneralSFTPFile.close(): the commit callback (get_file) was not found")
+
+        def is_when_done(v):
+            v = _strip_chain(v) if v is not None else None
+            return isinstance(v, ast.Call) and call_name(v) == "self.consumer.when_done"
+        for F in commits:
+            fg = F.cfg()
+            fnm2 = FlowNorm(F)
+            covered, wait_vars, upload_regs = set(), set(), []
+            for x in registrations(F):
+                if x.kind not in ("cb", "both", "pair"):
+                    continue
+                if x.recv:
+                    defs = [(n, assign_value(n, x.recv)) for n in fg.stmt_nodes() if x.recv in node_stores(n)]
+                    okr = bool(defs) and all(v is not None and is_when_done(fnm2.resolve(n, v)) for (n, v) in defs)
+                else:
+                    okr = is_when_done(x.call)
+                if not okr:
+                    continue
+                if x.recv:
+                    wait_vars.add(x.recv)
+                for b in _reached_callables(F, G, x.target):
+                    cs = _tree_calls(b)
+                    covered.update(id(c) for c in cs)
+                    if any(call_tail(c) == "get_file" for c in cs):
+                        upload_regs.append(_cfg_node_of(fg, x.call))
+            for c in _tree_calls(F.node):
+                if call_tail(c) != "get_file":
+                    continue
+                r.site(F, c, "get_file")
+                r.require(id(c) in covered, F, F.loc(c), "the consumer's temp file is handed to the uploader (%s) outside a callback of "
+                          "self.consumer.when_done(): the upload can start while the background download is still filling the "
+                          "file, and uploads the holes" % src(F, c))
+
+            def waits(n):
+                if not is_return(n) or n.ast.value is None:
+                    return False
+                return is_when_done(n.ast.value) or bool(wait_vars & depends_on(F, n.ast.value))
+            # every way through the commit chains an upload of the temp file (close() already decided that there is something
+            # to commit; only a re-check of has_changed may leave early)
+            def unchanged(t, lab):
+                f = fnm2.edge_fact(t, lab)
+                return bool(f) and f[0] == "false" and f[1] == FLAG
+            for (t, w) in find_path_avoiding(fg, lambda x: x.kind == "exit", gate_node=lambda x: any(x is u for u in upload_regs),
+                                             gate_edge=unchanged, skip_exc_edges=True):
+                r.violation(F, F.loc(), "the commit callback can finish without chaining an upload of the consumer's temp file: close() "
+                            "reports success but the changed contents are never stored (path: %s)" % w.brief(), w)
+            # once an upload has been chained, the commit hands that Deferred back
+            for un in upload_regs:
+                if un is None:
+                    continue
+                r.site(F, un.ast, "commit result")
+                for (t, w) in find_path_from_to_avoiding(fg, lambda x, _u=un: x is _u, waits):
+                    r.violation(F, F.loc(un.ast), "the commit callback can finish without returning the Deferred of when_done()+upload: "
+                                "_do_close then closes the consumer (and its temp file) and reports success before the upload has "
+                                "read the contents", w)
+        CC = idx.cls(CLS)
+        WD = idx.func(CLS + ".when_done")
+        wg = WD.cfg()
+        rets = wg.find(is_return)
+        if not rets:
+            raise AnchorVanished("when_done(): no return found")
+        r.site(WD, None, "when_done")
+        for n in rets:
+            v = n.ast.value
+            nm = attr_path(v) if v is not None else None
+            defs = [assign_value(m, nm) for m in wg.stmt_nodes() if nm and nm in node_stores(m)]
+            fresh = bool(defs) and all(isinstance(d, ast.Call) and call_tail(d) == "Deferred" and not d.args for d in defs)
+            r.require(fresh, WD, WD.loc(n.ast), "when_done() returns %s, not a new Deferred fired from a callback of self.done: the "
+                      "commit does not wait for the download" % (src(WD, v) if v is not None else "None"))
+            if fresh:
+                fires = [c for c in _tree_calls(WD.node)
+                         if (call_tail(c) in ("eventually_callback", "eventually_errback") and c.args and attr_path(c.args[0]) == nm)
+                         or call_name(c) in (nm + ".callback", nm + ".errback")]
+                in_done = set()
+                for x in registrations(WD):
+                    if x.recv == "self.done" and x.kind in ("cb", "both", "pair"):
+                        for b in _reached_callables(WD, CC, x.target):
+                            in_done.update(id(c) for c in _tree_calls(b))
+                r.require(bool(fires) and all(id(c) in in_done for c in fires), WD, WD.loc(n.ast),
+                          "the Deferred returned by when_done() is not fired (only) from a callback registered on self.done")
+        for m in CC.methods.values():
+            for c in _tree_calls(m.node):
+                if (call_tail(c) in ("eventually_callback", "eventually_errback") and c.args and attr_path(c.args[0]) == "self.done") \
+                        or call_name(c) in ("self.done.callback", "self.done.errback"):
+                    r.site(m, c, "self.done fired")
+                    r.require(m.name == "download_done", m, m.loc(c), "self.done (which releases the commit) is fired in %s(), "
+                              "outside download_done()" % m.name)
+            for st in ast.walk(m.node):
+                if isinstance(st, ast.Assign) and any(attr_path(t) == "self.done" for t in st.targets):
+                    r.site(m, st, "self.done created")
+                    r.require(isinstance(st.value, ast.Call) and call_tail(st.value) == "Deferred" and not st.value.args, m, m.loc(st),
+                              "self.done is %s, not an unfired Deferred" % src(m, st.value))
